@@ -51,6 +51,11 @@ class Oracle:
 
     def finish(self, w: ctl.World) -> None:
         proc = w.proc
+        if any(r['op'] == 'kill' and r['raised'] is None and not r.get('withdrawn') for r in w.calls):
+            # (part iii) a kill that stands decides the run (C04's business); one that was withdrawn again must leave the
+            # wake-up untouched, which is what is judged below
+            w.result.outcome = (str(proc.state), 'killed', tuple((r['op'], str(r['ret'])) for r in w.calls))
+            return
         # group accepted resumes by the WAITING state instance they were delivered to (number of state entries so far)
         accepted: Dict[int, List[dict]] = {}
         for rec in w.calls:
@@ -99,6 +104,22 @@ def cfg_for(unit: Any) -> ctl.Config:
 
 
 PROP = CtlProperty(ID, Oracle, cfg_for)
+
+# part (iii): "... and other control requests": a kill that is withdrawn again (the caller cancels the action it was handed)
+KILL_ALPHABET = (('resume', 'v1'), ('kill', 't1'), ('unask',), ('pause',), ('play',))
+
+
+def cfg_kill(unit: Any) -> ctl.Config:
+    cfg = ctl.Config(alphabet=KILL_ALPHABET, closing=('gates', 'play', 'resume_if_none'), resume_default=('dflt',))
+    cfg.cost_of = lambda op: 'J' if op[0] == 'resume' else 'K'
+    return cfg
+
+
+KILL_PROP = CtlProperty(ID, Oracle, cfg_kill)
+
+
+def kill_factory() -> CtlProperty:
+    return KILL_PROP
 
 
 def factory() -> CtlProperty:
@@ -157,13 +178,24 @@ def run_check(tier: str, seed: int, workers: Any) -> Dict[str, Any]:
         describe=lambda u: {'items': u[0][0], 'how': u[0][1]})
     for v in part2['violations']:
         v['features'] = dict(v.get('features', {}), part='workchain')
-    return runner.merge([part1, part2])
+    tiny = [(p, None) for p in programs.linear_programs(2, ('S', 'Y1'), ('wait',), ('ret',), min_len=2)]
+    kbudget = {'K': 3, 'J': 1} if tier == 'quick' else {'K': 4, 'J': 2}
+    part3 = runner.run_explorer(
+        kill_factory, (), tiny, kbudget, seed, workers,
+        rule='(iii) the two-step waiting programs with <=K requests from ' + repr(KILL_ALPHABET[1:]) + ' and <=J resumes: a kill '
+             'that is withdrawn again (unask) must not cost the wake-up; executions in which a kill stands are not judged here',
+        assumptions=[], bounds=dict(kbudget, program_len=2), describe=describe_unit)
+    for v in part3['violations']:
+        v['features'] = dict(v.get('features', {}), part='kill-withdrawn')
+    return runner.merge([part1, part2, part3])
 
 
 def replay(doc: Dict[str, Any]) -> List[Dict[str, Any]]:
     from ._common import is_wc_unit
     if is_wc_unit(doc.get('unit')):
         return wc_factory().replay(doc)
+    if (doc.get('features') or {}).get('part') == 'kill-withdrawn':
+        return KILL_PROP.replay(doc)
     return PROP.replay(doc)
 
 
